@@ -1,4 +1,4 @@
-(* Props/C14.v — property theorems only; each closed by `exact <lemma>` (proofs in Fmt/{Render,Breaks,Emits,Witness}.v).
+(* Props/C14.v — property theorems only; each closed by `exact <lemma>` (proofs in Fmt/{Render,Breaks,Emits,Witness,Witness2}.v).
 
    C14: "For every syntactically valid program and every line width, the formatter's output parses without errors to the same
    abstract syntax tree as the input, contains every comment of the input in the same order, and is a fixed point."
@@ -6,18 +6,25 @@
    What is proved here (over Fmt/Model.v) and what is not
    * The layout engine of the `pretty` crate is NOT modelled.  Instead every theorem quantifies over ALL admissible renderings
      of a document (every flat/broken choice per group), which contains the rendering picked for any width and any indent.
-   * `doc_of` transcribes cst_print.rs for the expression/statement fragment only (see Fmt/Model.v header); match, type
-     declarations, modules, `use`, visibility are outside (`in_fragment c = false`); for those only the facts of the
-     property are checked directly on the implementation.
+   * `doc_of` transcribes cst_print.rs arm by arm for the WHOLE syntax (see Fmt/Model.v header): expressions, statements,
+     match (arms, patterns), type declarations (`type`, `type rec`, `type alias`), `use` (single, list, wildcard), `mod`,
+     `pub`, `#stage(..)`, macro definitions and calls, quote / splice, `include`, record update / incomplete records, default
+     parameters, all type forms.  Only Error nodes (texts with syntax errors) are outside (`in_fragment c = false`).
    * The parser is represented by its line-break rule only: `observed r` are the answers of has_trailing_linebreak() at the
-     positions where parse_postfix_expr consults it with a postfix opener ahead; C14_breaks_safe_same_parse_partial is
-     stated for ANY function of (token words, those answers).  That the real parser is such a function is checked by
-     checks/C14.py (re-layout test), not proved.
+     SENSITIVE positions, i.e. where the answer decides the parse:
+       (1) before a postfix opener `(` `[` `.` that follows a token which can end an expression (parse_postfix_expr) --
+           between two statements of a block / module / program, between the condition of an `if` and a then-branch that
+           starts with `(` `[`, between a match arm and a following arm whose pattern starts with `(`;
+       (2) before the comma that follows a match arm (parse_match_expr: after a line break the parser starts the next arm).
+     The other uses of has_trailing_linebreak() (parse_expr_with_precedence, parse_block_expr) leave a loop where it would be
+     left anyway; type declarations (`|` continuation lines), `use` lists and patterns never consult it.
+     C14_breaks_safe_same_parse_partial / C14_same_parse_as_source_partial are stated for ANY function of (token words,
+     those answers).  That the real parser is such a function is checked by checks/C14.py (re-layout test), not proved.
    * Theorems named `_partial` cover the fragment / rest on a hypothesis that is validated by the correspondence check.
    * The defects the faithful model used to reproduce (`_refuted` theorems of the previous version) are repaired in
      cst_print.rs; their witnesses are now positive Examples at the end of this file. *)
 From Coq Require Import String Ascii List Bool Arith.
-From Mimium Require Import Fmt.Model Fmt.Render Fmt.Breaks Fmt.Emits Fmt.Witness.
+From Mimium Require Import Fmt.Model Fmt.Render Fmt.Breaks Fmt.Emits Fmt.Witness Fmt.Witness2.
 Import ListNotations.
 Local Open Scope string_scope.
 Local Open Scope list_scope.
@@ -57,6 +64,34 @@ Theorem C14_breaks_safe_same_parse_partial :
   safe_breaks d = true -> In r1 (renderings d) -> In r2 (renderings d) ->
   parse (words r1) (observed r1) = parse (words r2) (observed r2).
 Proof. exact breaks_safe_parse. Qed.
+
+(* Under safe_breaks the flags every rendering shows the parser are the flags the document FORCES (a hard line between the two
+   tokens: true; no break point: false): a function of the document alone, computed by doc_flags. *)
+Theorem C14_breaks_forced : forall (d : doc) (r : list atom),
+  safe_breaks d = true -> In r (renderings d) -> observed r = doc_flags d.
+Proof. exact breaks_forced. Qed.
+
+(* If, moreover, these are the flags the SOURCE shows the parser (keeps_breaks: safe_breaks and doc_flags = src_observed,
+   decided by computation for each program by the check), every rendering -- every width, every indent -- gives the parser
+   the line-break flags of the source at every sensitive position. *)
+Theorem C14_breaks_as_source : forall (ind : nat) (c : cst) (r : list atom),
+  keeps_breaks ind c = true -> In r (renderings (doc_of ind c)) -> observed r = src_observed c.
+Proof. exact breaks_as_source. Qed.
+
+(* ... so, together with emits_all, any parser that is a function of the token/comment sequence and of those flags gives for
+   every rendering the result it gives for the source: "the output parses to the same tree as the input". *)
+Theorem C14_same_parse_as_source_partial :
+  forall (A : Type) (parse : list string -> list bool -> A) (ind : nat) (c : cst) (r : list atom),
+  emits_all ind c -> keeps_breaks ind c = true -> In r (renderings (doc_of ind c)) ->
+  parse (words r) (observed r) = parse (cst_words c) (src_observed c).
+Proof. exact same_parse_as_source. Qed.
+
+(* emits_all is compositional over the nodes printed by concatenation (with blanks or forced breaks between the children):
+   statements, unary / call / parenthesised expressions, leaf-like nodes, and now match expressions, arm lists, arms,
+   patterns, type declarations and variants.  The children may be nodes with a printing state machine. *)
+Theorem C14_emits_all_node_partial : forall (ind : nat) (k : skind) (cs : list cst),
+  concat_kind k = true -> Forall (emits_all ind) cs -> emits_all ind (Node k cs).
+Proof. exact emits_all_node. Qed.
 
 (* The membership test the correspondence check runs on the real output is sound: a text it accepts IS the flattening of an
    admissible rendering of the model document. *)
@@ -128,6 +163,51 @@ Example C14_ex_if_branch_assignment :
   all_renderings (doc_of 4 c_if_assign) (contains "x = 1") = true.
 Proof. exact if_assign_kept. Qed.
 
+(* ---- the rest of the syntax: the defects FM11..FM14 (repaired) and the new sensitive position ----------------------- *)
+(* "macro m(x){ x }": keyword and name stay apart *)
+Example C14_ex_macro_definition :
+  in_fragment c_macro_def = true /\ emits_all 4 c_macro_def /\ all_renderings (doc_of 4 c_macro_def) (prefix "macro m(x){") = true.
+Proof. exact macro_def_spaced. Qed.
+
+(* "mod k { x\n (a) }": the body of a module is laid out like a block; the line break of the source before `(a)` is forced
+   in every rendering (the only rendering is shown) *)
+Example C14_ex_module_body :
+  in_fragment c_mod_body = true /\ emits_all 4 c_mod_body /\ keeps_breaks 4 c_mod_body = true /\
+  src_observed c_mod_body = [true] /\
+  all_renderings (doc_of 4 c_mod_body) (String.eqb ("mod k {" ++ newline 4 ++ "x" ++ newline 4 ++ "(a)" ++ newline 0 ++ "}")) = true.
+Proof. exact mod_body_laid_out. Qed.
+
+(* "pub mod m { use a::b\n use c::{d, e} }" *)
+Example C14_ex_module_use :
+  in_fragment c_mod_use = true /\ emits_all 4 c_mod_use /\ keeps_breaks 4 c_mod_use = true /\
+  all_renderings (doc_of 4 c_mod_use) (contains ("use a::b" ++ newline 4 ++ "use c::{d, e}")) = true.
+Proof. exact mod_use_kept. Qed.
+
+(* "match p {\n 0 => f\n (1, 2) => 2.0, _ => g }": two sensitive positions -- before the `(` of the second arm (line break in
+   the source, forced in the document) and before the comma after the second arm (no line break, no break point) *)
+Example C14_ex_match_arm_paren :
+  in_fragment c_match_paren = true /\ emits_all 4 c_match_paren /\ keeps_breaks 4 c_match_paren = true /\
+  src_observed c_match_paren = [true; false] /\ doc_flags (doc_of 4 c_match_paren) = [true; false].
+Proof. exact match_paren_arm_kept. Qed.
+
+(* "let f = |x|->float|string x" *)
+Example C14_ex_lambda_union_return :
+  in_fragment c_lam_union = true /\ emits_all 4 c_lam_union /\
+  all_renderings (doc_of 4 c_lam_union) (String.eqb "let f = |x|->float|string x") = true.
+Proof. exact lam_union_spaced. Qed.
+
+(* "type T = A // c\n | B(float)": a type declaration is printed by concatenation with blanks; the `|` continuation line is
+   not a sensitive position (src_observed lists only `B (`, not broken) *)
+Example C14_ex_type_declaration :
+  forallb concat_only (children c_type_decl) = true /\ emits_all 4 c_type_decl /\ keeps_breaks 4 c_type_decl = true /\
+  all_renderings (doc_of 4 c_type_decl) (String.eqb ("type T = A // c" ++ newline 0 ++ " | B ( float )")) = true.
+Proof. exact type_decl_concat. Qed.
+
+(* safe_breaks is not vacuous: a document with an optional break before a postfix opener has renderings the parser tells apart *)
+Example C14_ex_unsafe_document : safe_breaks d_unsafe = false /\
+  exists r1 r2, In r1 (renderings d_unsafe) /\ In r2 (renderings d_unsafe) /\ observed r1 <> observed r2.
+Proof. exact unsafe_example. Qed.
+
 (* ---- the hypotheses of the positive theorems are satisfiable: "fn f(a, b){ let x = g(a, b) + 1 // sum\n  x |> h }" ---- *)
 Example C14_ex_in_fragment : in_fragment c_ok = true.
 Proof. exact ok_in_fragment. Qed.
@@ -135,6 +215,8 @@ Example C14_ex_safe_breaks : safe_breaks (doc_of 4 c_ok) = true.
 Proof. exact ok_safe. Qed.
 Example C14_ex_emits_all : emits_all 4 c_ok.
 Proof. exact ok_emits_all. Qed.
+Example C14_ex_keeps_breaks : keeps_breaks 4 c_ok = true.
+Proof. exact ok_keeps_breaks. Qed.
 Example C14_ex_concat_only : concat_only c_concat = true /\ cst_words c_concat = ["-"; "a"; "."; "b"; "/* c */"].
 Proof. exact c_concat_ok. Qed.
 Example C14_ex_has_renderings : renderings (doc_of 4 c_ok) <> [].
